@@ -163,6 +163,58 @@ func sortedKeysS(m map[string]string) []string {
 	return out
 }
 
+// movesOneAmount: fn is a plain function of (from, to *Account, amt) that debits
+// `from` once, credits `to` once — both by its own parameter amt — and otherwise
+// only refunds `from` by amt after the credit; nothing else touches a balance.
+func (w *World) movesOneAmount(fn *ssa.Function) bool {
+	if fn == nil || fn.Blocks == nil || fn.Parent() != nil {
+		return false
+	}
+	var sub, add, refund int
+	var from, to, amt string
+	var subCall, addCall ssa.CallInstruction
+	for _, c := range CallsIn(fn) {
+		isSub := w.callIs(c.Common(), fref{"ctrlers/types", "Account", "SubBalance"})
+		isAdd := w.callIs(c.Common(), fref{"ctrlers/types", "Account", "AddBalance"})
+		if !isSub && !isAdd {
+			continue
+		}
+		rcv, args := callRecvArgs(c.Common())
+		if rcv == nil || len(args) != 1 || paramIndexIn(fn, rcv) < 0 || paramIndexIn(fn, args[0]) < 0 {
+			return false
+		}
+		rc, ac := w.Canon(rcv), w.Canon(args[0])
+		if amt == "" {
+			amt = ac
+		} else if amt != ac {
+			return false
+		}
+		switch {
+		case isSub:
+			sub++
+			from, subCall = rc, c
+		case isAdd && rc == from && from != "":
+			refund++
+			if addCall == nil || !instrReaches(addCall, c) {
+				return false
+			}
+		case isAdd:
+			add++
+			to, addCall = rc, c
+		}
+	}
+	if sub != 1 || add != 1 || refund > 1 || from == to || subCall == nil || addCall == nil || !instrDominates(subCall, addCall) {
+		return false
+	}
+	// no other balance write
+	for _, fs := range w.fieldStores(fn) {
+		if fs.Field.Name() == "Balance" {
+			return false
+		}
+	}
+	return true
+}
+
 func (w *World) checkCallers(r *Report, rule string, ref fref, allowed map[string]string, minCallers int) {
 	fn := needFn(r, rule, w, ref)
 	if fn == nil {
@@ -180,6 +232,9 @@ func (w *World) checkCallers(r *Report, rule string, ref fref, allowed map[strin
 				roots[v] = true
 			}
 			r.OK(rule, key, "helper of an allowed caller: every call of it comes from "+via, site(w, cs.Site))
+		} else if (ref.name == "SubBalance" || ref.name == "AddBalance") && ref.typ == "Account" && w.movesOneAmount(cs.Caller) {
+			roots[name] = true
+			r.OK(rule, key, "helper that moves one amount between two accounts it is handed (debit of the one, credit of the other by the same amount, refund on failure): value is conserved whoever calls it", site(w, cs.Site))
 		} else {
 			roots[name] = true
 			r.Violate(rule, key, fmt.Sprintf("%s is called from %s (closed set of callers: %s)", refStr(ref), name, strings.Join(sortedKeysS(allowed), ", ")), nil, site(w, cs.Site))
